@@ -105,3 +105,65 @@ Theorem C10_categorize_refuted :
     exists c, categorize false inf l = Done c /\ ~ categorize_conserves T inf l c.
 Proof. exact categorize_refuted. Qed.
 Print Assumptions C10_categorize_refuted.
+
+(* ---- a definition and its references ---------------------------------------
+   [consistent all] is the referential consistency of property C06 as far as
+   grouping reads it (referenced_from = the references to the definition, in
+   order; a reference to an ingredient points back to a definition); the check
+   evaluates it on every recipe the implementation produces.  [owned all i x]:
+   x's own quantity, then those of the references to index i, in recipe order.
+   [recipe_free]: no written quantity has an offset unit (temperature).
+   group_ingredients never panics (no index out of range), reports exactly the
+   definitions in recipe order ([def_indices]) - references are not entries -
+   and the group of each holds exactly what is counted under it. *)
+Theorem C10_definition_quantities : forall T (fitq : qty -> option qty) all,
+  sane T = true -> (forall q q', fitq q = Some q' -> contrib T q' ≡ contrib T q) ->
+  consistent all = true -> recipe_free T all ->
+  exists es, group_ingredients T fitq all = Done es /\
+             map (fun e => fst (fst e)) es = def_indices all 0 /\
+             Forall (entry_ok T all) es.
+Proof. intros T fitq all Hs Hf. apply group_ingredients_ok; assumption. Qed.
+Print Assumptions C10_definition_quantities.
+
+(* exactly once: a reference is among the references of the one definition it
+   names, once; it comes after that definition, which is a definition indeed;
+   a reference to a step or a section is counted under none *)
+Theorem C10_counted_once : forall all i j,
+  (In j (refs_to all i) <-> exists y, nth_ing all j = Some y /\ irel y = RRef i true) /\
+  NoDup (refs_to all i) /\
+  (consistent all = true -> In j (refs_to all i) ->
+     (i < j)%N /\ exists x, nth_ing all i = Some x /\ is_definition (irel x) = true).
+Proof.
+  intros all i j. split; [apply refs_to_spec|]. split; [apply refs_to_nodup | apply refs_after].
+Qed.
+Print Assumptions C10_counted_once.
+
+(* ---- IngredientList ----------------------------------------------------------
+   [name_total T n l]: the total shown under display name n; [recipe_lists T all n]:
+   over the ingredients of the recipe in order, everything counted under each
+   definition that should be listed (not HIDDEN, not REF) and is displayed as n.
+   add_recipe over any sequence of recipes, starting from any list. *)
+Theorem C10_list : forall T (fitq : qty -> option qty),
+  sane T = true -> (forall q q', fitq q = Some q' -> contrib T q' ≡ contrib T q) ->
+  (forall q q', fitq q = Some q' -> q_free T q -> q_free T q') ->
+  forall rs l, recipes_ok T rs ->
+  exists l', add_recipes T fitq l rs = Done l' /\
+    forall n, name_total T n l' ≡ name_total T n l ⊕ ssum (map (fun all => recipe_lists T all n) rs).
+Proof. intros T fitq Hs H1 H2 rs l. apply add_recipes_spec; assumption. Qed.
+Print Assumptions C10_list.
+
+Theorem C10_list_order_independent : forall T (fitq : qty -> option qty),
+  sane T = true -> (forall q q', fitq q = Some q' -> contrib T q' ≡ contrib T q) ->
+  (forall q q', fitq q = Some q' -> q_free T q -> q_free T q') ->
+  forall rs rs', recipes_ok T rs -> Permutation rs rs' ->
+  exists l l', add_recipes T fitq [] rs = Done l /\ add_recipes T fitq [] rs' = Done l' /\
+               forall n, name_total T n l ≡ name_total T n l'.
+Proof. intros T fitq Hs H1 H2 rs rs'. apply add_recipes_order; assumption. Qed.
+Print Assumptions C10_list_order_independent.
+
+Example C10_list_hypotheses_satisfiable :
+  exists T (fitq : qty -> option qty) all,
+    sane T = true /\ (forall q q', fitq q = Some q' -> contrib T q' ≡ contrib T q) /\
+    (forall q q', fitq q = Some q' -> q_free T q -> q_free T q') /\
+    consistent all = true /\ recipe_free T all /\ refs_to all 0 = [2%N].
+Proof. exact list_hyps_sat. Qed.
